@@ -400,3 +400,255 @@ Theorem unescape_roundtrip s rest :
 Proof.
   intros R. unfold unescape_dq. rewrite N.eqb_refl, unq_body_escape by exact R. reflexivity.
 Qed.
+
+(* ================================================================== *)
+(* ftpListParseParts: tokenisation                                     *)
+(* ================================================================== *)
+Definition nonwsp (c : N) : bool := negb (is_wsp c).
+
+(* pre is empty or ends with a blank / post is empty or starts with a blank *)
+Definition ends_blank (pre : bytes) : Prop := pre = [] \/ exists p c, pre = p ++ [c] /\ is_wsp c = true.
+Definition starts_blank (post : bytes) : Prop := match post with [] => True | c :: _ => is_wsp c = true end.
+
+(* the token is a non-empty blank-free piece of the line found at its recorded offset,
+   delimited by blanks or the ends of the line *)
+Definition tok_ok (buf : bytes) (t : tokrec) : Prop :=
+  t_tok t <> [] /\ forallb nonwsp (t_tok t) = true /\
+  exists pre post, buf = pre ++ t_tok t ++ post /\ lenN pre = t_pos t /\ ends_blank pre /\ starts_blank post.
+
+Lemma forallb_rev {A} (p : A -> bool) l : forallb p (rev l) = forallb p l.
+Proof.
+  induction l as [|x l IH]; cbn [rev forallb]; [reflexivity|].
+  rewrite forallb_app, IH. cbn [forallb]. rewrite andb_true_r. apply andb_comm.
+Qed.
+
+Lemma rev_nonnil {A} (l : list A) : l <> [] -> rev l <> [].
+Proof. destruct l as [|x l]; [congruence|]. cbn [rev]. intros _ C. apply app_eq_nil in C as [_ C]. discriminate. Qed.
+
+Lemma tokscan_ok buf s : forall pos start cur pre,
+  buf = pre ++ rev cur ++ s -> pos = lenN pre + lenN cur -> (cur <> [] -> start = lenN pre) ->
+  forallb nonwsp cur = true -> ends_blank pre ->
+  forall t, In t (tokscan s pos start cur) -> tok_ok buf t.
+Proof.
+  induction s as [|c r IH]; intros pos start cur pre HB HP HS HC HE t HI; cbn [tokscan] in HI.
+  - destruct cur as [|x cur']; [destruct HI|]. destruct HI as [<-|[]]. cbn [t_tok t_pos].
+    split; [apply rev_nonnil; discriminate|]. split; [rewrite forallb_rev; exact HC|].
+    exists pre, []. rewrite HS by discriminate. repeat split; [exact HB | exact HE].
+  - destruct (is_wsp c) eqn:EW.
+    + destruct cur as [|x cur'].
+      * apply (IH (pos + 1) (pos + 1) [] (pre ++ [c])); try assumption.
+        -- rewrite HB. cbn [rev app]. rewrite <- app_assoc. reflexivity.
+        -- rewrite lenN_app. cbn [lenN] in *. lia.
+        -- congruence.
+        -- right. exists pre, c. auto.
+      * destruct HI as [<-|HI].
+        -- cbn [t_tok t_pos]. split; [apply rev_nonnil; discriminate|]. split; [rewrite forallb_rev; exact HC|].
+           exists pre, (c :: r). rewrite HS by discriminate. repeat split; [exact HB | exact HE | exact EW].
+        -- apply (IH (pos + 1) (pos + 1) [] (pre ++ rev (x :: cur') ++ [c])); try assumption.
+           ++ rewrite HB. cbn [rev app]. rewrite <- !app_assoc. reflexivity.
+           ++ rewrite !lenN_app, lenN_rev. cbn [lenN] in *. lia.
+           ++ congruence.
+           ++ reflexivity.
+           ++ right. exists (pre ++ rev (x :: cur')), c. rewrite <- app_assoc. auto.
+    + apply (IH (pos + 1) (match cur with [] => pos | _ => start end) (c :: cur) pre); try assumption.
+      * rewrite HB. cbn [rev]. rewrite <- !app_assoc. reflexivity.
+      * cbn [lenN]. lia.
+      * intros _. destruct cur as [|x cur']; [cbn [lenN] in HP; lia| apply HS; discriminate].
+      * cbn [forallb]. unfold nonwsp at 1. rewrite EW. exact HC.
+Qed.
+
+Theorem all_tokens_ok buf t : In t (all_tokens buf) -> tok_ok buf t.
+Proof.
+  apply (tokscan_ok buf buf 0 0 [] []); try reflexivity; [congruence | left; reflexivity].
+Qed.
+
+(* consequences used for bounds *)
+Lemma tok_ok_bounds buf t : tok_ok buf t ->
+  t_pos t + lenN (t_tok t) <= lenN buf /\ 1 <= lenN (t_tok t) /\
+  dropN (t_pos t) buf = t_tok t ++ dropN (t_pos t + lenN (t_tok t)) buf.
+Proof.
+  intros (NE & _ & pre & post & HB & HL & _ & _).
+  assert (L : lenN buf = lenN pre + lenN (t_tok t) + lenN post) by (rewrite HB, !lenN_app; lia).
+  split; [lia|]. split.
+  - destruct (t_tok t); [congruence|cbn [lenN]; lia].
+  - rewrite <- HL. rewrite HB at 1. rewrite dropN_app_exact.
+    replace (lenN pre + lenN (t_tok t)) with (lenN (pre ++ t_tok t)) by apply lenN_app.
+    rewrite HB, app_assoc, dropN_app_exact. reflexivity.
+Qed.
+
+(* ---- the store loop and the 64-token limit ---- *)
+Lemma store_loop_val g c : g <= c -> forall ts arr,
+  store_loop g c ts arr = Val (arr ++ takeN (g - lenN arr) ts).
+Proof.
+  intros GC ts; induction ts as [|t r IH]; intros arr; cbn [store_loop takeN].
+  - rewrite app_nil_r. reflexivity.
+  - destruct (lenN arr <? g) eqn:E1.
+    + assert (E2 : (lenN arr <? c) = true) by lia. rewrite E2, IH.
+      destruct (g - lenN arr =? 0) eqn:E3; [lia|].
+      rewrite <- app_assoc. cbn [app]. rewrite lenN_app. cbn [lenN].
+      replace (g - (lenN arr + N.succ 0)) with (N.pred (g - lenN arr)) by lia. reflexivity.
+    + destruct (g - lenN arr =? 0) eqn:E3; [|lia]. rewrite app_nil_r. reflexivity.
+Qed.
+
+Lemma In_takeN {A} n (l : list A) x : In x (takeN n l) -> In x l.
+Proof.
+  revert n; induction l as [|y l IH]; intros n; cbn [takeN]; [auto|].
+  destruct (n =? 0); [intros []|]. intros [->|H]; [left; reflexivity| right; eapply IH; exact H].
+Qed.
+
+Lemma guard_le_capacity : max_tokens <= tokens_capacity.
+Proof. vm_compute. discriminate. Qed.
+
+(* the array filled by the loop: the first max_tokens tokens of the line, never a store past the array *)
+Theorem stored_tokens buf :
+  store_loop max_tokens tokens_capacity (all_tokens buf) [] = Val (takeN max_tokens (all_tokens buf)).
+Proof.
+  rewrite (store_loop_val _ _ guard_le_capacity). cbn [app lenN]. rewrite N.sub_0_r. reflexivity.
+Qed.
+
+Lemma stored_tokens_len buf : lenN (takeN max_tokens (all_tokens buf)) <= max_tokens.
+Proof. rewrite lenN_takeN. lia. Qed.
+
+(* ---- checked primitives never fail inside their bounds ---- *)
+Lemma nthN_some {A} (l : list A) n : n < lenN l -> exists x, nthN n l = Some x /\ In x l.
+Proof.
+  revert n; induction l as [|y l IH]; intros n H; cbn [lenN nthN] in *; [lia|].
+  destruct (n =? 0) eqn:E; [exists y; split; [reflexivity|left; reflexivity]|].
+  destruct (IH (N.pred n)) as (x & A & B); [lia|]. exists x. split; [exact A| right; exact B].
+Qed.
+
+Lemma tok_get_ok arr i : (0 <= i < Z.of_N (lenN arr))%Z -> exists t, tok_get arr i = Val t /\ In t arr.
+Proof.
+  intros H. unfold tok_get. destruct (i <? 0)%Z eqn:E; [lia|].
+  destruct (nthN_some arr (Z.to_N i)) as (x & A & B); [lia|]. rewrite A. exists x. auto.
+Qed.
+
+Lemma cstr_at_ok buf off : off <= lenN buf -> cstr_at buf off = Val (dropN off buf).
+Proof. intros H. unfold cstr_at. destruct (off <=? lenN buf) eqn:E; [reflexivity|lia]. Qed.
+
+Lemma tbuf_positive : (tbuf_size <=? tbuf_size) && (0 <? tbuf_size) = true.
+Proof. vm_compute. reflexivity. Qed.
+
+Lemma snprintf_ok s : snprintf_chk tbuf_size tbuf_size s = Val (takeN (tbuf_size - 1) s, lenN s).
+Proof. unfold snprintf_chk. rewrite tbuf_positive. reflexivity. Qed.
+
+(* ================================================================== *)
+(* ftpListParseParts: no access outside its objects                    *)
+(* ================================================================== *)
+Section Bounds.
+Variables (skipws : bool) (buf : bytes) (arr : list tokrec).
+Hypothesis arr_ok : forall t, In t arr -> tok_ok buf t.
+
+Lemma unix_body_in_bounds i : (3 <= i)%Z -> (i + 2 < Z.of_N (lenN arr))%Z -> unix_body skipws buf arr i <> OOB.
+Proof.
+  intros H3 Hn. unfold unix_body.
+  destruct (tok_get_ok arr (i - 1)%Z) as (sz & Gsz & Isz); [lia|].
+  destruct (tok_get_ok arr i) as (mo & Gmo & Imo); [lia|].
+  destruct (tok_get_ok arr (i + 1)%Z) as (dy & Gdy & Idy); [lia|].
+  destruct (tok_get_ok arr (i + 2)%Z) as (yr & Gyr & Iyr); [lia|].
+  destruct (tok_get_ok arr 0%Z) as (t0 & Gt0 & It0); [lia|].
+  rewrite Gsz, Gmo, Gdy, Gyr. cbn [bind].
+  destruct (negb (is_month (t_tok mo))); [discriminate|].
+  destruct (negb (re_integer (t_tok sz))); [discriminate|].
+  destruct (negb (re_integer (t_tok dy))); [discriminate|].
+  destruct (negb (re_time (t_tok yr))); [discriminate|].
+  destruct (tok_ok_bounds _ _ (arr_ok _ Imo)) as (Bmo & _ & _).
+  destruct (tok_ok_bounds _ _ (arr_ok _ Iyr)) as (Byr & _ & _).
+  rewrite cstr_at_ok by lia. cbn [bind]. rewrite !snprintf_ok. cbn [bind].
+  match goal with |- (if ?c then _ else _) <> _ => destruct c end; [|discriminate].
+  rewrite Gt0. cbn [bind]. rewrite cstr_at_ok by lia. cbn [bind].
+  match goal with |- (let '(_, _) := ?x in _) <> _ => destruct x end. discriminate.
+Qed.
+
+Lemma unix_loop_in_bounds idx :
+  (forall i, In i idx -> (3 <= i)%Z /\ (i + 2 < Z.of_N (lenN arr))%Z) -> unix_loop skipws buf arr idx <> OOB.
+Proof.
+  induction idx as [|i r IH]; intros H; cbn [unix_loop]; [discriminate|].
+  destruct (H i (or_introl eq_refl)) as [A B].
+  pose proof (unix_body_in_bounds i A B) as NB.
+  destruct (unix_body skipws buf arr i) as [st|]; [|congruence]. cbn [bind].
+  destruct st; try discriminate. apply IH. intros j Hj. apply H. right. exact Hj.
+Qed.
+
+Lemma unix_indices_range i : In i (unix_indices (lenN arr)) -> (3 <= i)%Z /\ (i + 2 < Z.of_N (lenN arr))%Z.
+Proof.
+  unfold unix_indices. rewrite in_map_iff. intros (k & <- & Hk). apply in_seq in Hk. lia.
+Qed.
+
+Lemma dos_try_in_bounds : dos_try arr <> OOB.
+Proof.
+  unfold dos_try. destruct (3 <? lenN arr) eqn:E; [|discriminate].
+  destruct (tok_get_ok arr 0%Z) as (t0 & G0 & _); [lia|].
+  destruct (tok_get_ok arr 1%Z) as (t1 & G1 & _); [lia|].
+  destruct (tok_get_ok arr 2%Z) as (t2 & G2 & _); [lia|].
+  destruct (tok_get_ok arr 3%Z) as (t3 & G3 & _); [lia|].
+  rewrite G0, G1. cbn [bind]. destruct (re_dosdate (t_tok t0) && re_dostime (t_tok t1)); [|discriminate].
+  rewrite G2, G3. cbn [bind]. rewrite snprintf_ok. cbn [bind]. discriminate.
+Qed.
+End Bounds.
+
+(* ---- EPLF facts ---- *)
+Definition seg_ok (buf : bytes) (f : tokrec) : Prop :=
+  exists pre post, buf = pre ++ t_tok f ++ post /\ lenN pre = t_pos f.
+
+Lemma segscan_ok buf s : forall pos start cur pre,
+  buf = pre ++ rev cur ++ s -> pos = lenN pre + lenN cur -> start = lenN pre ->
+  forall f, In f (segscan s pos start cur) -> seg_ok buf f.
+Proof.
+  induction s as [|c r IH]; intros pos start cur pre HB HP HS f HI; cbn [segscan] in HI.
+  - destruct HI as [<-|[]]. exists pre, []. cbn [t_tok t_pos]. auto.
+  - destruct (c =? 44) eqn:E.
+    + destruct HI as [<-|HI].
+      * exists pre, (c :: r). cbn [t_tok t_pos]. auto.
+      * apply (IH (pos + 1) (pos + 1) [] (pre ++ rev cur ++ [c])); try assumption.
+        -- rewrite HB. cbn [rev app]. rewrite <- !app_assoc. reflexivity.
+        -- rewrite !lenN_app, lenN_rev. cbn [lenN]. lia.
+        -- rewrite !lenN_app, lenN_rev. cbn [lenN]. lia.
+    + apply (IH (pos + 1) start (c :: cur) pre); try assumption.
+      * rewrite HB. cbn [rev]. rewrite <- !app_assoc. reflexivity.
+      * cbn [lenN]. lia.
+Qed.
+
+Lemma eplf_fact_in_bounds buf st f : seg_ok buf f -> eplf_fact buf st f <> OOB.
+Proof.
+  intros (pre & post & HB & HL). unfold eplf_fact.
+  destruct (lenN (t_tok f) <? 1) eqn:E; [discriminate|].
+  assert (L : lenN buf = lenN pre + lenN (t_tok f) + lenN post) by (rewrite HB, !lenN_app; lia).
+  rewrite cstr_at_ok by lia. cbn [bind].
+  repeat match goal with |- (if ?c then _ else _) <> _ => destruct c end; discriminate.
+Qed.
+
+Lemma eplf_loop_in_bounds buf fs : (forall f, In f fs -> seg_ok buf f) -> forall st, eplf_loop buf st fs <> OOB.
+Proof.
+  induction fs as [|f r IH]; intros H st; cbn [eplf_loop]; [discriminate|].
+  pose proof (eplf_fact_in_bounds buf st f (H f (or_introl eq_refl))) as NB.
+  destruct (eplf_fact buf st f) as [st'|]; [|congruence]. cbn [bind]. apply IH. intros g Hg. apply H. right. exact Hg.
+Qed.
+
+Lemma eplf_try_in_bounds buf : eplf_try buf <> OOB.
+Proof.
+  unfold eplf_try. destruct buf as [|c rest]; [discriminate|].
+  destruct (N.eq_dec c 43) as [->|NE].
+  - pose proof (eplf_loop_in_bounds (43 :: rest) (segscan rest 1 1 [])) as H.
+    match goal with |- bind (eplf_loop _ ?st _) _ <> _ => specialize (H (segscan_ok (43 :: rest) rest 1 1 [] [43] eq_refl eq_refl eq_refl) st) end.
+    destruct (eplf_loop _ _ _) as [st'|]; [|congruence]. cbn [bind]. destruct (e_name st'); discriminate.
+  - destruct c as [|p]; [discriminate|]. do 6 (destruct p as [p|p|]; try discriminate). congruence.
+Qed.
+
+(* the property: for every line and both flags, no read or write outside the line (terminator included),
+   the tokens[] array or tbuf[] *)
+Theorem list_parse_in_bounds nlst skipws buf : list_parse nlst skipws buf <> OOB.
+Proof.
+  unfold list_parse. destruct buf as [|b0 br]; [discriminate|]. set (buf := b0 :: br).
+  destruct nlst; [discriminate|].
+  rewrite stored_tokens. cbn [bind]. set (arr := takeN max_tokens (all_tokens buf)).
+  assert (AO : forall t, In t arr -> tok_ok buf t).
+  { intros t Ht. apply all_tokens_ok. eapply In_takeN. exact Ht. }
+  pose proof (unix_loop_in_bounds skipws buf arr AO (unix_indices (lenN arr)) (unix_indices_range arr)) as NB.
+  destruct (unix_loop skipws buf arr (unix_indices (lenN arr))) as [st|]; [|congruence]. cbn [bind].
+  destruct st; try discriminate.
+  - pose proof (dos_try_in_bounds arr) as ND. destruct (dos_try arr) as [d|]; [|congruence]. cbn [bind].
+    destruct d; [discriminate|apply eplf_try_in_bounds].
+  - pose proof (dos_try_in_bounds arr) as ND. destruct (dos_try arr) as [d|]; [|congruence]. cbn [bind].
+    destruct d; [discriminate|apply eplf_try_in_bounds].
+Qed.
